@@ -37,6 +37,9 @@ type Plan struct {
 type Stream struct {
 	Data []byte `json:"data"`
 	Plan Plan   `json:"plan"`
+	// Kind says what standard input is: "" or "pipe" (a pipe), "file" (a
+	// redirected regular file), "chardev" (/dev/null: no data).
+	Kind string `json:"kind,omitempty"`
 }
 
 // FileSpec is one entry of the virtual file system.
@@ -47,6 +50,8 @@ type FileSpec struct {
 	OpenErr string `json:"open_err,omitempty"`
 	// CreateErr: "", "ENOENT", "EACCES", "EISDIR".
 	CreateErr string `json:"create_err,omitempty"`
+	// RenameErr: os.Rename onto this path fails with the errno (EXDEV, EACCES).
+	RenameErr string `json:"rename_err,omitempty"`
 	// Pipe: the path is a FIFO (process substitution): Stat reports size 0 and
 	// a named-pipe mode, the bytes only arrive through Read.
 	Pipe bool `json:"pipe,omitempty"`
@@ -98,6 +103,7 @@ type Created struct {
 	Virtual string `json:"virtual"`
 	Real    string `json:"real"`
 	Closed  bool   `json:"closed"`
+	Removed bool   `json:"removed,omitempty"`
 }
 
 type Journal struct {
